@@ -89,6 +89,55 @@ class OwnHooks(Hooks):
     def __init__(self, fork_bad_alloc=False):
         self.fork_bad_alloc = fork_bad_alloc
 
+    def on_store(self, I, st, inst, p, v, nbytes):
+        if isinstance(p, PtrV) and p.obj is not None:
+            st.ev('own-store', inst, p.obj, p.off, nbytes)
+
+    def unroll_for(self, I, fn, header, st=None):
+        # a loop whose exit test compares against a small constant (an element-wise walk over the in-object array): interpreted exactly
+        k = const_trip_bound(fn, header)
+        if k is not None and k <= 40:
+            return k + 2
+        return self.unroll
+
+
+def const_trip_bound(fn, header):
+    """The constant an integer comparison in the loop's header block tests against (None if there is none or it is large)."""
+    for b in fn.blocks:
+        if b.id != header:
+            continue
+        for i in b.insts:
+            if i.op == 'icmp':
+                for a in i.a:
+                    if isinstance(a, list) and a and a[0] == 'i' and 0 < a[1] <= 64:
+                        return a[1]
+    return None
+
+
+def maybe_written(st, oid, lo, hi, base_ver=0):
+    """Some store recorded after version base_ver may touch [lo, hi) (byte offsets, Lin) of object oid."""
+    ob = st.objs.get(oid)
+    if ob is None:
+        return True
+    for (roff, rlen, tag, ver) in ob.regions:
+        if ver <= base_ver:
+            continue
+        rl = rlen if isinstance(rlen, Lin) else Lin.const(rlen)
+        if st.is_ge0(roff - hi) is True or st.is_ge0(lo - roff - rl) is True:
+            continue
+        return True
+    for e in st.events:
+        if e[0] == 'own-store' and e[2] == oid:
+            if st.is_ge0(e[3] - hi) is True or st.is_ge0(lo - e[3] - e[4]) is True:
+                continue
+            return True
+    return False
+
+
+def path_abstracted(st):
+    """The path went through the abstraction of a loop: what the state does not know afterwards is lost precision, not a fact."""
+    return any(e[0] == 'widen' for e in st.events)
+
 
 # ------------------------------------------------------------------------------------------------
 # scenario construction
@@ -125,7 +174,7 @@ def make_buffer(I, st, L, tag, cls):
         o.lazy = True
         storage = PtrV(hid, ZERO)
     o.cells[L.size_off] = (8, IntV(64, Lin.atom(s), 'u'))
-    st.flags['entry:' + tag] = dict(cls=cls, size=Lin.atom(s), storage=storage, storage_ver=st.objs[storage.obj].version)
+    st.flags['entry:' + tag] = dict(cls=cls, size=Lin.atom(s), storage=storage, storage_ver=st.objs[storage.obj].version, obj_ver=o.version)
     return oid
 
 
@@ -163,7 +212,7 @@ def make_stream(I, st, L, tag, cls):
     o.cells[L.alloc_off] = (8, IntV(64, alloc, 'u'))
     o.cells[L.size_off] = (8, IntV(64, Lin.atom(s), 'u'))
     st.flags['entry:' + tag] = dict(cls=cls, size=Lin.atom(s), alloc=alloc, storage=storage,
-                                    storage_ver=st.objs[storage.obj].version)
+                                    storage_ver=st.objs[storage.obj].version, obj_ver=o.version)
     return oid
 
 
@@ -232,7 +281,12 @@ def check_inv_obj(I, st0, oid, problems, undecided):
             else:
                 v = I.load(st, None, PtrV(oid, Lin.const(L.data_off) + sl.scale(L.eb)), 'i%d' % (L.eb * 8), L.eb)
                 if not (isinstance(v, IntV) and not v.lin.t and v.lin.c == 0):
-                    problems.append(('terminator', '%s: no NUL known at index m_size = %r of the in-object array' % (where, sl)))
+                    pos = Lin.const(L.data_off) + sl.scale(L.eb)
+                    ent = st.flags.get('entry:' + str(st.objs[oid].attrs.get('tag')))
+                    if (isinstance(v, IntV) and not v.lin.t) or not maybe_written(st, oid, pos, pos + L.eb, (ent or {}).get('obj_ver', 0)):
+                        problems.append(('terminator', '%s: no NUL known at index m_size = %r of the in-object array' % (where, sl)))
+                    else:
+                        undecided.append('%s: the unit at index m_size = %r of the in-object array was written with a value not decided to be NUL' % (where, sl))
         else:
             h = st.objs.get(chars.obj)
             if h is None or h.kind != 'heap':
@@ -447,6 +501,9 @@ def judge_common(I, o, f, info, destroyed=None):
     mv, mu = maybe_oob(I, st)
     problems += mv
     undecided += mu
+    if problems and path_abstracted(st):
+        undecided = list(undecided) + ['%s (after a loop that was abstracted: not a witness)' % p[1][:160] for p in problems[:2]]
+        problems = []
     return problems, undecided
 
 
